@@ -5,6 +5,7 @@ generated parameter points; oracle: closed forms in 50-digit decimal arithmetic,
 direct summation plus an Euler-Maclaurin tail.  The tolerance for the two truncated normalisers is
 *derived* from the documented truncation rule (terms below 1e-6 dropped), not chosen.
 """
+import hashlib
 import math
 import random
 from decimal import Decimal, getcontext
@@ -16,13 +17,13 @@ getcontext().prec = 50
 ID = "C19"
 RULE = ("parameter points: exponential a in (0.01,5], poisson mean in (0.05,30] (k<=120), power law alpha in [2,14] (float and int typed), "
         "cut-off power law alpha in [2,6] x kappa in [0.02,500] (log-uniform; kappa below 1/ln(1e6), where even the first series term is below 1e-6, included); grids (incl. alpha=2, large kappa) + seeded random; plus call histories: 4..8 callables created up front with near-equal, integer and repeated "
-        "parameters and evaluated interleaved; "
+        "parameters and evaluated interleaved, factories called positionally, by keyword or mixed (names read from the signature), always with pairs that differ only in a keyword-passed parameter; "
         "one case = one parameter point evaluated over its whole summed support; every point is non-trivial; "
         "distinct = SHA-1 of (distribution, parameters)")
 ASSUMPTIONS = ["oracle: 50-digit decimal closed forms; zeta/polylog by direct summation + Euler-Maclaurin tail",
                "tolerance for power laws = 1.5 * (mass of all series terms below 1e-6) / exact normaliser + 1e-12; closed forms 1e-12 relative",
                "Poisson evaluated for k <= 120 only (float overflow of k! beyond 170 is outside what is asserted)"]
-HEADLINE = ["points", "pointwise_decimal_checks", "pointwise_float_checks", "normalisation_checks", "exponential", "poisson", "power_law", "scale_free_cut_off", "history_callables", "history_evaluations"]
+HEADLINE = ["points", "pointwise_decimal_checks", "pointwise_float_checks", "normalisation_checks", "exponential", "poisson", "power_law", "scale_free_cut_off", "history_callables", "history_evaluations", "factory_calls_with_keywords"]
 REQUIRED = {t: {"exponential": 5, "poisson": 5, "power_law": 5, "scale_free_cut_off": 5, "normalisation_checks": 20, "history_evaluations": 200}
             for t in ("quick", "thorough")}
 TOL_SERIES = 1e-6
@@ -85,10 +86,28 @@ def polylog_terms(s, kappa, K=None):
         k += 1
 
 
-def check_point(res, dist, params):
+def make(res, dist, params, style):
+    """calls the factory the way a caller may: all positional, all keywords, or the first positional and the rest by keyword"""
     import gcmpy
+    import inspect
     fac = getattr(gcmpy, dist)
-    p = sut(f"{dist}{tuple(params)}", fac, *params)
+    if style != "positional":
+        try:
+            names = [n for n, q in inspect.signature(fac).parameters.items() if q.kind in (q.POSITIONAL_OR_KEYWORD, q.KEYWORD_ONLY)]
+        except (TypeError, ValueError):
+            names = []
+        if len(names) >= len(params):
+            cut = 0 if style == "keyword" else 1
+            if cut < len(params):
+                res.count("factory_calls_with_keywords")
+                kw = dict(zip(names[cut:], params[cut:]))
+                return sut(f"{dist}(*{tuple(params[:cut])}, **{kw})", fac, *params[:cut], **kw)
+    return sut(f"{dist}{tuple(params)}", fac, *params)
+
+
+def check_point(res, dist, params):
+    style = ["positional", "positional", "keyword", "mixed"][int(hashlib.sha1(repr((dist, params)).encode()).hexdigest(), 16) % 4]
+    p = make(res, dist, params, style)
     res.count(dist)
     res.count("points")
     ctx = {"dist": dist, "params": params}
@@ -214,10 +233,18 @@ def run_history(res, seed):
             par = [rng.choice([2, 2.0, 2.0000001, 2.5, 3, rng.uniform(2, 6)])]
         else:
             par = [rng.choice([2, 2.0, 2.5, rng.uniform(2, 6)]), rng.choice([5, 5.0, 5.0000001, 50.0, 0.05, rng.uniform(0.5, 500)])]
-        objs.append((dist, par, sut(f"{dist}{tuple(par)}", getattr(gcmpy, dist), *par)))
+        objs.append((dist, par, make(res, dist, par, rng.choice(["positional", "positional", "keyword", "mixed"]))))
+    # two callables of one law that differ only in what a caller may pass by keyword
+    a, k1, k2 = rng.choice([2.5, 3.0, rng.uniform(2, 5)]), rng.choice([4.0, 8.0]), rng.choice([40.0, 25.0])
+    st = rng.choice(["keyword", "mixed"])
+    objs.append(("scale_free_cut_off", [a, k1], make(res, "scale_free_cut_off", [a, k1], st)))
+    objs.append(("scale_free_cut_off", [a, k2], make(res, "scale_free_cut_off", [a, k2], st)))
+    d2 = rng.choice(["exponential", "poisson", "power_law"])
+    for x in ([0.7, 1.9] if d2 == "exponential" else [3.0, 11.5] if d2 == "poisson" else [2.2, 3.7]):
+        objs.append((d2, [x], make(res, d2, [x], "keyword")))
     res.count("history_callables", len(objs))
     exact = {}
-    for _ in range(60):
+    for _ in range(90):
         dist, par, p = rng.choice(objs)
         k = rng.randint(0 if dist in ("exponential", "poisson") else 1, 40)
         v = float(sut(f"{dist}{tuple(par)}({k})", p, k))
